@@ -60,6 +60,9 @@ PairVerdict(c) ==
      ELSE
        LET good(DX, DY) ==
              /\ c.lb2 <= c.ub2
+             \* at any size: no map can have distortion below the difference of the diameters (and non-isometric cardinalities cost 1/2), so an
+             \* upper bound below that is not the distortion of a real map
+             /\ c.ub2 >= TrivialLb(DX, DY)
              \* against a one-point space the distance has the closed form diam (PointLemma, model-checked in MGH.tla)
              /\ (c.exact = 1 => (LET t == IF N(DY) = 1 THEN Diam(DX) ELSE IF N(DX) = 1 THEN Diam(DY) ELSE True2(DX, DY)
                                  IN c.lb2 <= t /\ t <= c.ub2))
